@@ -739,7 +739,9 @@ func ErrClass(msg string) string {
 	switch {
 	case strings.HasPrefix(msg, "E:"):
 		return "err"
-	case strings.HasPrefix(msg, "P:"):
+	case strings.HasPrefix(msg, "P:"), strings.HasPrefix(msg, "unexpected type "):
+		// (the generated type switch panics with "unexpected type %T" for a value that is
+		// no type of the schema; recovered like a resolver panic)
 		return "panic"
 	case strings.HasPrefix(msg, "D:"):
 		return "dir"
